@@ -832,7 +832,10 @@ class PointWorld(BaseWorld):
             q2 = dict(ev['q'], z=list(z))
             if not self.pre_q(q2):
                 continue
-            out.append(self.do_point(dict(ev, q=q2)))
+            e2 = dict(ev, q=q2, op='point')
+            if self.divert(e2) == 'skip':       # every element of the sweep is subject to the listed regions
+                continue
+            out.append(self.do_point(e2))
         return ['ok', str(out)[:120]]
 
     def other(self, q, value):
